@@ -31,6 +31,7 @@ def expected(nv, dim, bprime):
 
 def run_one(facts, fn, nv, dim):
     ex = SX.Engine(facts, "ws", c07_dft._models(), max_paths=6, max_depth=8, inline_limit=600, max_visits=200000)
+    ex.strict_flow = True
     ev = SX.Obj(adt="array", fields={i: Q.var("e%d" % i) for i in range(1 << nv)})
     mle = SX.Obj(adt=DENSE, fields={0: ev, 1: nv})
     pt = SX.Obj(adt="array", fields={i: Q.var("r%d" % i) for i in range(dim)})
